@@ -35,7 +35,7 @@ def dropTrail (c : Char) (l : List Char) : List Char := (l.reverse.dropWhile (·
 def incChar (c : Char) : Char := Char.ofNat (c.toNat + 1)
 
 /-- Go `int` (64 bit) wrap-around -/
-def wrap64 (x : Int) : Int := (x + 2^63) % 2^64 - 2^63
+def wrap64 (x : Int) : Int := (x + 9223372036854775808) % 18446744073709551616 - 9223372036854775808
 
 def maxInt : Int := 2^63 - 1
 def minInt : Int := -(2^63)
